@@ -31,4 +31,20 @@ func probe() {
 	fmt.Println("reopened: has c:", h, "get c", v, v == nil, ex, err, "size", m2.Size(), "root eq", m.Root() == m2.Root(), "restored", m2.WasRestoredFromStorage())
 	h, _ = m2.Has("a")
 	fmt.Println("reopened: has a:", h)
+
+	// finding dirty-reopen-keeps-size-and-rawkeys
+	st2 := mapdb.NewMapDB()
+	a := newMap(st2)
+	_ = a.Set("a", []byte{1})
+	_ = a.Commit()
+	d, _ = a.Delete("a")
+	fmt.Println("dirty: delete a:", d, "size", a.Size())
+	b := newMap(st2)
+	h, _ = b.Has("a")
+	v, ex, _ = b.Get("a")
+	n := 0
+	_ = b.Stream(func(string, []byte) error { n++; return nil })
+	fmt.Println("dirty reopen: has a:", h, "get a:", v, ex, "size", b.Size(), "streamed", n, "root == committed root:", b.Root() != [32]byte{})
+	d, _ = b.Delete("a")
+	fmt.Println("dirty reopen: delete a:", d, "size", b.Size())
 }
